@@ -502,7 +502,7 @@ pub fn grid(out: &mut ShardOut) {
 
     // ---- SampledLFU (no fallible constructor: must simply never panic)
     for &mc in &[i64::MIN / 4, -1, 0, 1, 100, i64::MAX / 4] {
-        for &s in &[0usize, 1, 5, 1000] {
+        for &s in &[0usize, 1, 5, 1000, 1 << 20, 1 << 60, usize::MAX / 2, usize::MAX - 1, usize::MAX] {
             let work = |l: &mut SampledLFU<u64>| -> Result<(), String> {
                 guarded(|| {
                     for k in [0u64, 1, u64::MAX] {
